@@ -119,6 +119,7 @@ def gen_string(exact, depth=2):
 def gen_program(exact, length):
     vars_, ops, snaps, txt = {}, [], [], []
     nextv = 0
+    parsed = {}
 
     def q(x):
         return qterm(x)
@@ -131,10 +132,17 @@ def gen_program(exact, length):
         touched = None
         if k == "string":
             v = nextv; nextv += 1
-            text = gen_string(exact)
+            # a string already parsed in this program is often parsed again (after the first result may have been
+            # extended in place): what a string denotes does not depend on what was done with earlier results
+            text = rng.choice(sorted(parsed)) if parsed and rng.random() < 0.4 else gen_string(exact)
             dens = rng.choice([None, None, round(rng.uniform(0.5, 12), 2)])
             name = rng.choice([None, None, "named%d" % step])
             vars_[v] = formula(text, density=dens, name=name)
+            now = ref_counts(vars_[v].structure, 1, {})
+            if text in parsed and parsed[text] != now:
+                fail("C02:parse-depends-on-history", "formula(%r) has atoms %r now, %r when the program first parsed it; program: %s"
+                     % (text, now, parsed[text], "; ".join(txt)), program="; ".join(txt + ["formula(%r)" % text]))
+            parsed.setdefault(text, now)
             ops.append("(XParse %d %s %s None %s)" % (v, cstr(text), optq_term(dens), optstr_term(name)))
             txt.append("v%d = formula(%r, density=%r, name=%r)" % (v, text, dens, name))
         elif k == "formula":
@@ -172,6 +180,14 @@ def gen_program(exact, length):
                 txt.append("v%d = formula(%r, density=%r, name=%r)" % (v, d, dens, name))
             elif sk == "nested":
                 n = pool.nested(rng.randint(0, 3), exact)
+                if rng.random() < 0.25:
+                    # the same structure handed over as one-shot iterables (zip, generators, iter) at every level
+                    def lazily(seq):
+                        return ((c, fr if core.isatom(fr) else lazily(fr)) for c, fr in seq)
+                    g = attempt(lambda: formula(lazily(n) if rng.random() < 0.5 else zip([c for c, _ in n], [fr if core.isatom(fr) else iter(fr) for _, fr in n])))
+                    if isinstance(g, Exception) or ref_counts(g.structure, 1, {}) != ref_counts(n, 1, {}):
+                        fail("C02:constructor-loses-atoms", "formula(<the structure %r as one-shot iterables>) gives %s"
+                             % (n, g if isinstance(g, Exception) else dict(g.atoms)), program="formula(iter(%r))" % (n,))
                 f = formula(n, density=dens, name=name)
                 s = "(SNested %s)" % struct_term(n)
                 txt.append("v%d = formula(%r, density=%r, name=%r)" % (v, n, dens, name))
